@@ -39,6 +39,7 @@ from spyne.model.fault import Fault
 from spyne.model.primitive import Double
 from spyne.model.primitive import Boolean
 from spyne.model.primitive import Integer
+from spyne.model.complex import ComplexModelBase
 from spyne.protocol.dictdoc import HierDictDocument
 
 
@@ -314,6 +315,12 @@ class MessagePackRpc(MessagePackDocument):
 
         if ctx.in_error:
             ctx.in_error = Fault(**ctx.in_error)
+
+        elif body_class and not issubclass(body_class, ComplexModelBase):
+            # the bare argument of a primitive type
+            ctx.in_object = self._from_dict_value(ctx,
+                                       body_class.get_type_name(), body_class,
+                                            ctx.in_body_doc, self.validator)
 
         elif body_class:
             ctx.in_object = self._doc_to_object(ctx,
